@@ -191,3 +191,53 @@ func verifHarness_C05_structured(k1 int, n1 int, k2 int, n2 int, noise int, mode
 	verifAssert(e1 == io.EOF && e2 == io.EOF, "C05/B/then-end-of-stream")
 	verifReach("C05/B")
 }
+
+// T: a valid frame (kind, payload n) cut after `cut` bytes, the transport then ending with EOF (inj 0) or another
+// error (inj 1): the reader never returns a frame for the cut bytes, only parse errors, then the transport's error;
+// the same for any segmentation into 1-byte reads.
+func verifHarness_C05_truncated(kind int, n int, cut int, inj int) {
+	wire := verifAnyFrameWire(kind, n)
+	if cut >= len(wire) {
+		verifReach("C05/T")
+		return
+	}
+	var terr error = io.EOF
+	if inj == 1 {
+		terr = verifErrInjected
+	}
+	for mode := 0; mode < 2; mode++ {
+		c := &verifChunkReader{data: wire[:cut]}
+		if inj == 1 {
+			c.err = verifErrInjected
+		}
+		if mode == 1 {
+			c.chunks = make([]int, cut)
+			for i := range c.chunks {
+				c.chunks[i] = 1
+			}
+		}
+		r := &Reader{ByteReader: c}
+		verifAssert(r.Initialize() == nil, "C05/T/init")
+		done := false
+		prev := 0
+		for call := 0; call <= cut+1 && !done; call++ {
+			f, err := r.Read()
+			consumed := c.drawn - r.BufByteReader.Buffered()
+			if call == 0 {
+				// the cut frame itself is never returned
+				verifAssert(err != nil && f == nil, "C05/T/no-frame-from-a-truncated-frame")
+			}
+			if err == nil {
+				// bytes left over from the cut frame may happen to contain a small complete frame: it must be exactly those bytes
+				verifAssert(f != nil && verifEqBytes(verifWireOf(f), wire[prev:consumed]), "C05/T/later-frame-is-its-consumed-bytes")
+			}
+			if err != nil && !verifIsReadError(err) {
+				verifAssert(err == terr, "C05/T/transport-error-raw")
+				done = true
+			}
+			prev = consumed
+		}
+		verifAssert(done, "C05/T/ends-with-the-transport-error")
+	}
+	verifReach("C05/T")
+}
